@@ -146,13 +146,13 @@ def render(p):
                 pcol = len(head) + sum(len(x) + 2 for x in parts) + (len(mod) + 1 if mod else 0)
                 if not m.override and not pn[0].isupper():
                     o.flag("naming:param", l0, pcol, pn)
-                parts.append("%s%s : %s" % (mod + " " if mod else "", pn, pty))
+                parts.append("%s%s : %s" % (mod + " " if mod else "", pn, rc(pty)))
             head += ", ".join(parts) + ")"
         if m.kind == "func":
             head += " return "
             if m.ret.upper() in [x.upper() for x in FLAGGED_RET]:
                 o.flag("ret", l0, len(head), m.ret)
-            head += m.ret
+            head += rc(m.ret)          # a type REFERENCE: re-cased in the metamorphic variant
         if m.override:
             head += " override"
         o.line(head)
